@@ -10,6 +10,7 @@
 package polworld
 
 import (
+	"bytes"
 	"context"
 	"crypto/ecdsa"
 	"crypto/elliptic"
@@ -19,6 +20,7 @@ import (
 	"io"
 	"math/big"
 	"strconv"
+	"strings"
 	"time"
 
 	iec "github.com/nspcc-dev/neofs-node/internal/ec"
@@ -29,6 +31,7 @@ import (
 	objutil "github.com/nspcc-dev/neofs-node/pkg/services/object/util"
 	"github.com/nspcc-dev/neofs-node/pkg/services/policer"
 	"github.com/nspcc-dev/neofs-node/pkg/services/replicator"
+	"github.com/nspcc-dev/neofs-sdk-go/client"
 	apistatus "github.com/nspcc-dev/neofs-sdk-go/client/status"
 	cid "github.com/nspcc-dev/neofs-sdk-go/container/id"
 	neofscrypto "github.com/nspcc-dev/neofs-sdk-go/crypto"
@@ -78,7 +81,7 @@ func init() {
 	}
 	engine.VerifPolicerWorldHook = func(_ *engine.StorageEngine, name string, _ []any) ([]any, bool) {
 		if name == "GetBytes" {
-			return []any{[]byte("verif-object-bytes"), nil}, true
+			return []any{bytes.Clone(ObjectBytes), nil}, true
 		}
 		return nil, false
 	}
@@ -144,6 +147,7 @@ type World struct {
 	HeadOK       []int // ... that returned it
 	ReplCalls    []int // remote nodes the real RemoteSender sent the object to
 	ReplOK       []int // ... that acknowledged
+	ReplPrepErrs []int // nodes a replica was meant for but never sent to: building the request from the object source failed
 	Submitted    []int // nodes reported to the policer through replicator.TaskResult
 	Tasks        []Task
 	Deletes      []engine.GarbageMark
@@ -152,6 +156,7 @@ type World struct {
 	UnknownCalls []string
 
 	partHdr map[[2]int]object.Object
+	demux   map[io.ReadSeeker]demuxEntry
 }
 
 // Task is one replication task as the policer handed it to the replicator.
@@ -229,9 +234,126 @@ type fakeClient struct {
 	node int
 }
 
-func (c fakeClient) ReplicateObject(_ context.Context, id oid.ID, _ io.ReadSeeker, _ neofscrypto.Signer, _ bool) (*neofscrypto.Signature, error) {
+// consumeLikeSDK takes the object out of src exactly the way neofs-sdk-go's Client.ReplicateObject does
+// before it sends anything (client/object_replicate.go: prepareReplicateMessage / newReplicateMessage):
+//   - a source wrapped by client.DemuxReplicatedObject is read ONCE, the prepared message (or the
+//     preparation error) is cached in the wrapper and reused by every later call;
+//   - any other source is sized (bytes.Reader: Size(); otherwise Seek(0,End) then Seek(-n,Current)) and then
+//     read with io.ReadFull FROM ITS CURRENT POSITION; it is never rewound, so a second call on the same
+//     plain reader fails with "read full object into the buffer: EOF" without contacting the node.
+//
+// CalibrateAgainstSDK checks at start-up that this model and the real SDK client leave identical traces.
+func (w *World) consumeLikeSDK(src io.ReadSeeker) ([]byte, error) {
+	if fmt.Sprintf("%T", src) != demuxTypeName {
+		return readLikeSDK(src)
+	}
+	if e, ok := w.demux[src]; ok {
+		return e.msg, e.err
+	}
+	msg, err := readLikeSDK(src)
+	if w.demux == nil {
+		w.demux = map[io.ReadSeeker]demuxEntry{}
+	}
+	w.demux[src] = demuxEntry{msg, err}
+	return msg, err
+}
+
+const demuxTypeName = "*client.demuxReplicationMessage"
+
+type demuxEntry struct {
+	msg []byte
+	err error
+}
+
+func readLikeSDK(src io.ReadSeeker) ([]byte, error) {
+	var size int64
+	switch v := src.(type) {
+	default:
+		n, err := src.Seek(0, io.SeekEnd)
+		if err != nil {
+			return nil, fmt.Errorf("seek to end: %w", err)
+		}
+		if _, err = src.Seek(-n, io.SeekCurrent); err != nil {
+			return nil, fmt.Errorf("seek back to initial pos: %w", err)
+		}
+		size = n
+	case *bytes.Reader:
+		size = v.Size()
+	}
+	buf := make([]byte, size)
+	if _, err := io.ReadFull(src, buf); err != nil {
+		return nil, fmt.Errorf("read full object into the buffer: %w", err)
+	}
+	return buf, nil
+}
+
+// CalibrateAgainstSDK runs the REAL SDK client (no connection: the call dies at the gRPC send, after the
+// request has been prepared from the source) and the model above on identical sources, three calls each on
+// a plain *bytes.Reader and on a DemuxReplicatedObject wrapper, and compares after every call (a) whether
+// the call got as far as sending and (b) how many bytes are left unread in the underlying reader.
+func CalibrateAgainstSDK() error {
+	type obs struct {
+		sent bool
+		left int
+	}
+	real := func(src io.ReadSeeker) (sent bool) {
+		c, err := client.New(client.PrmInit{})
+		if err != nil {
+			panic(err)
+		}
+		defer func() {
+			if recover() != nil {
+				sent = true // nil connection dereferenced inside Invoke: the request had been prepared
+			}
+		}()
+		_, err = c.ReplicateObject(context.Background(), Obj, src, neofsecdsa.Signer(*key), false)
+		return err != nil && strings.Contains(err.Error(), "send request over gRPC")
+	}
+	w := &World{}
+	model := func(src io.ReadSeeker) bool {
+		_, err := w.consumeLikeSDK(src)
+		return err == nil
+	}
+	for _, wrap := range []bool{false, true} {
+		var got [2][]obs
+		for k, f := range []func(io.ReadSeeker) bool{real, model} {
+			under := bytes.NewReader(ObjectBytes)
+			var src io.ReadSeeker = under
+			if wrap {
+				src = client.DemuxReplicatedObject(under)
+			}
+			for i := 0; i < 3; i++ {
+				got[k] = append(got[k], obs{f(src), under.Len()})
+			}
+		}
+		if fmt.Sprint(got[0]) != fmt.Sprint(got[1]) {
+			return fmt.Errorf("stream consumption model differs from the SDK client (demux=%v): sdk %v, model %v", wrap, got[0], got[1])
+		}
+		if !got[0][0].sent {
+			return fmt.Errorf("calibration is vacuous: the SDK client did not reach the send step (demux=%v): %v", wrap, got[0])
+		}
+	}
+	if t := fmt.Sprintf("%T", client.DemuxReplicatedObject(bytes.NewReader(nil))); t != demuxTypeName {
+		return fmt.Errorf("demux wrapper type is %s, model expects %s", t, demuxTypeName)
+	}
+	return nil
+}
+
+// ObjectBytes is what the replicator reads from the local engine for every task.
+var ObjectBytes = []byte("verif-object-bytes")
+
+func (c fakeClient) ReplicateObject(_ context.Context, id oid.ID, src io.ReadSeeker, _ neofscrypto.Signer, _ bool) (*neofscrypto.Signature, error) {
 	if id != Obj {
 		c.w.UnknownCalls = append(c.w.UnknownCalls, "ReplicateObject "+id.String())
+	}
+	msg, err := c.w.consumeLikeSDK(src)
+	if err != nil {
+		// as in the SDK: nothing is sent, the node is never contacted
+		c.w.ReplPrepErrs = append(c.w.ReplPrepErrs, c.node)
+		return nil, err
+	}
+	if !bytes.Equal(msg, ObjectBytes) {
+		c.w.UnknownCalls = append(c.w.UnknownCalls, fmt.Sprintf("node %d would receive a corrupted object %q", c.node, msg))
 	}
 	c.w.ReplCalls = append(c.w.ReplCalls, c.node)
 	if err := c.w.Replicate(c.node); err != nil {
@@ -340,6 +462,8 @@ func (w *World) Reset() {
 	w.HeadCalls, w.HeadOK, w.ReplCalls, w.ReplOK, w.Submitted = w.HeadCalls[:0], w.HeadOK[:0], w.ReplCalls[:0], w.ReplOK[:0], w.Submitted[:0]
 	w.Tasks, w.Deletes, w.ShardTrims, w.UnknownCalls = nil, nil, nil, nil
 	w.PartHeads = 0
+	w.ReplPrepErrs = w.ReplPrepErrs[:0]
+	w.demux = nil
 }
 
 // Run performs one real policy check of the fixed object (what the policer does for every address its
